@@ -110,6 +110,32 @@ def loop_family(fx, f, depth=2):
     return out
 
 
+def is_actor_root(fx, b, r, actor_idx, depth=0, _seen=None):
+    """does root `r` of loop body `b` denote the loop's own actor value? the captured actor itself, what refresh handed
+    back, or what a crate-local async helper handed back that was given the actor (`process_payloads(actor, ..).await?`)"""
+    if r.kind == "upvar" and actor_idx and r.site == actor_idx[0]:
+        return True
+    _seen = _seen or set()
+    if r in _seen:
+        return True  # `actor = helper(actor, ..).await?`: the value flows round the loop
+    if r.kind != "await" or depth > 3:
+        return False
+    _seen = _seen | {r}
+    for _x, ct in b.awaited_calls(r.site[0]):
+        if trait_method(T_RS, "refresh")(ct):
+            return True
+        h = fx.callee_fn(ct)
+        hco = [c for c in fx.children_of(h["def"]) if c["kind"] == "coroutine"] if (h is not None and h.get("is_async")) else []
+        rty = Body(hco[0]).locals[0]["ty"] if len(hco) == 1 else ""
+        if h is not None and h.get("is_async") and ("<A," in rty or rty == "A") and ct.get("args"):
+            from props.c15 import roots as _roots
+            for a in ct["args"]:
+                if a.get("k") in ("move", "copy") and b.locals[a["p"][0]]["ty"] == "A":
+                    if all(is_actor_root(fx, b, r2, actor_idx, depth + 1, _seen) for r2 in _roots(b, a)):
+                        return True
+    return False
+
+
 def find_loops(fx):
     """loop coroutines: call Actor::started and (themselves, in nested closures or in local helpers) dequeue from the mailbox"""
     out = []
